@@ -14,6 +14,22 @@ middle of a larger bytearray whose other bytes are canaries.  Operations:
           pairing of {cdata pointer, Python buffer, cffi buffer} (+ an external bytes source)
     poke  change one byte behind cffi's back (the views must be live)
 
+Added after the audit (.cache/audit/C19.md; handlers in _c19x.py, large sizes in large_slices below):
+    ss    further sources: memoryview, array.array('H'), non-contiguous view, list, str, cdata array /
+          pointer / primitive
+    del, dels, gs3, ss3     del b[i], del b[i:j], b[i:j:step] reads and writes (step None, 1, True,
+          __index__ object, 2, -1, 0, +-2**63)
+    setv, geti, seti, gsi, ssi   other value kinds for b[i] = v; bool / __index__ / float / str / None
+          objects as index and as slice bounds
+    rd, cmp, mvset, mvset1, pack, unpack, readinto   iteration, in, reversed, memoryview(b), bytearray(b),
+          join; the six comparisons; writes through memoryview(b), struct.pack_into, readinto
+    fb (more types / windows), fbf (call forms), fbx (external read-only, 2-D, strided, str objects)
+    mm kinds int* / void*; mmx: keywords, size objects, refused operands, owner object, struct pointer
+    bufp  ffi.buffer over int* / void* / struct* cdata, keyword form, __index__ size
+Three expectation modes: EXACT (the bytearray's outcome), TOLERANT (refused with nothing changed, or
+the bytearray's outcome: inputs the statement does not oblige cffi to take), REFUSE (must raise, nothing
+changed: deletions, length changes, inputs a bytearray refuses too).
+
 Reference model: a Python bytearray with Python's own index / slice semantics
 (the model literally evaluates the same expression on a bytearray), with the
 one exception the statement makes: an assignment that would change the length
@@ -25,6 +41,8 @@ import ctypes
 
 from .. import hist, pool
 from ..build import InfraError
+from . import _c19x
+from ._c19x import get_ffi, FB_TYPES
 
 ID = "C19"
 LEVEL = "model_checking"
@@ -33,17 +51,35 @@ META = dict(
     technique="explicit-state search over all operation histories (buffer views, index/slice reads and writes, "
               "from_buffer, memmove) on real memory in lock-step with a Python bytearray as reference model",
     text="From four kinds of 12-byte memory (bytearray, array.array, ffi.new, a canary-guarded window): every single "
-         "operation of the full alphabet (10.4k operations, including ffi.memmove for all 819 (dst offset, src offset, "
-         "n) triples x 12 pairings of cdata / Python buffer / cffi buffer / bytes); quick = all histories of length 2 "
-         "with at most one operation outside a 43-operation core alphabet (113-operation alphabet) and the core "
-         "alphabet to depth 3 (merging beyond depth 1); thorough = length 2 with one operation from the full alphabet, "
-         "length 3 with one operation from the 113-operation alphabet, all core triples (no merging), core to depth 4 "
-         "with merging beyond depth 2.  Slice bounds straddle the clamping comparisons of mb_slice/mb_ass_slice "
-         "(None, -n-1, -1, 0, 3, n, n+1, +-2**63); from_buffer windows of 12, 8, 7, 5 and 0 bytes straddle the "
-         "rounding and the fixed-size check of direct_from_buffer.",
+         "operation of the full alphabet (13.9k operations, including ffi.memmove for all 819 (dst offset, src offset, "
+         "n) triples x 14 pairings of cdata char* / int* / void* / Python buffer / cffi buffer / bytes); quick = all "
+         "histories of length 2 with at most one operation outside a 44-operation core alphabet (163-operation "
+         "alphabet) and the core alphabet to depth 3 (merging beyond depth 1); thorough = length 2 with one operation "
+         "from the full alphabet, length 3 with one operation from the 163-operation alphabet, all core triples (no "
+         "merging), core to depth 4 with merging beyond depth 2.  Slice bounds straddle the clamping comparisons of "
+         "mb_slice/mb_ass_slice (None, -n-1, -1, 0, 3, n, n+1, +-2**63); from_buffer windows of 12, 11, 8, 7, 5, 3 "
+         "and 0 bytes straddle the rounding and the fixed-size check of direct_from_buffer.  Families added after the "
+         "audit (all enumerated, same bytearray oracle): slice-assignment sources memoryview / array.array / "
+         "non-contiguous view / list / str / cdata array, pointer and primitive (ss, +424 ops); del b[i], del b[i:j], "
+         "three-part slices with step None, 1, True, __index__ object, 2, -1, 0, +-2**63 for reads and writes "
+         "(del/dels/gs3/ss3, 170 ops); item assignment of int, bytearray, memoryview, empty, 2-byte, str, None "
+         "values and bool / __index__ / float / str / None index objects as indices and slice bounds "
+         "(setv/geti/seti/gsi/ssi, 66 ops); iteration, reversed, in, memoryview reads, bytearray(), join, the six "
+         "rich comparisons against 11 kinds of operand, writes through memoryview(b), struct.pack_into, readinto "
+         "(rd/cmp/mvset/mvset1/pack/unpack/readinto, 105 ops); from_buffer with item sizes 8, 3 (char[][3]), 16, 0, "
+         "nested items, int[0], a pointer type, windows of 3 and 11 bytes, the type as ctype object, the "
+         "one-argument form, require_writable positional / keyword, cdecl= / python_buffer= keywords on both front "
+         "ends, and external bytes / read-only memoryview / 2-D memoryview / array('I') / non-contiguous / str "
+         "objects (fb/fbf/fbx, +1042 ops); memmove with keywords, __index__ / bool / float / negative / 2**63 "
+         "sizes, read-only, primitive, struct, non-contiguous and str operands, the owner object itself, int[3] and "
+         "struct pointer cdata (mmx, 40 ops); ffi.buffer over int* / void* / struct* cdata, keyword and __index__ "
+         "forms (bufp, 25 ops); slice reads and overlapping slice assignments on 4 KiB - 1 MiB buffers "
+         "(large_slices, 69 cases quick / 115 thorough).",
     note="Python's bytearray is the oracle for index/slice semantics; 'len(obj)' in the statement is read as the "
-         "byte length of obj's buffer (array.array('H') of 6 items = 12 bytes); extended slices (step != 1) are "
-         "not compared")
+         "byte length of obj's buffer (array.array('H') of 6 items = 12 bytes); where the statement does not oblige "
+         "cffi to accept an input that a bytearray accepts (extended slices, non-bytes values, lists, cdata or "
+         "non-contiguous sources, index objects as sizes) the rule is 'refused with every byte unchanged, or exactly "
+         "the bytearray's result'; deletion and every length-changing assignment must be refused")
 
 N = 12
 MAXS = 2 ** 63 - 1
@@ -54,23 +90,20 @@ MEMS = ("bytearray", "array", "cdata", "window")
 INIT = bytes(range(0x10, 0x10 + N))
 EXT = bytes(range(0xE0, 0xE0 + N))
 
-FB_TYPES = {   # name -> (item struct code, item size, fixed count or None)
-    "char[]": ("c", 1, None), "short[]": ("h", 2, None), "int[]": ("i", 4, None),
-    "int[2]": ("i", 4, 2), "int[3]": ("i", 4, 3), "int[4]": ("i", 4, 4),
-    "char[12]": ("c", 1, 12), "char[13]": ("c", 1, 13),
-}
-FB_WINS = [(0, 12), (0, 5), (4, 7), (0, 8), (2, 0)]      # (offset, length); (0, 12) is the object itself
-_FBV = {"c": [b"Z", b"\xfe"], "h": [0x5A5B, -2], "i": [0x51525354, -3]}
+# from_buffer tables (FB_TYPES, FB_WINS), the two FFI front ends (get_ffi) and every operation family added
+# after the audit live in _c19x.py; the lists below are the part of them this module enumerates itself
+FB_OLD_TYPES = _c19x.FB_OLD_TYPES
+FB_WINS = _c19x.FB_OLD_WINS                               # (offset, length); (0, 12) is the object itself
+if (N, MAXS, BIG, EXT) != (_c19x.N, _c19x.MAXS, _c19x.BIG, _c19x.EXT):
+    raise InfraError("c19 / _c19x constants differ")
 
-_ffis = {}
-
-
-def get_ffi(kind):
-    if kind not in _ffis:
-        import _cffi_backend
-        import cffi
-        _ffis[kind] = cffi.FFI() if kind == "inline" else _cffi_backend.FFI()
-    return _ffis[kind]
+# sources of a slice assignment: EXACT = a buffer of bytes, accepted iff the length fits; TOLERANT = an object a
+# bytearray would take but the statement does not oblige cffi to (refused and nothing changed, or the bytearray's
+# result); REFUSE = a bytearray refuses it as well
+SS_OLD = ("bytes", "short", "long", "bytearray", "ovl+", "ovl-", "self")
+SS_NEW_EXACT = ("mview", "arrayH")
+SS_TOLERANT = ("noncontig", "list", "cdata_arr", "cdata_ptr")
+SS_REFUSE = ("str", "cdata_prim")
 
 
 # ---------------------------------------------------------------------------
@@ -148,9 +181,16 @@ def _gen_ops(bufwin):
                 if src in ("bytearray", "self") and (i, j) not in narrow_gs:
                     continue
             out.append((l, ("ss", i, j, src)))
+    # more kinds of source objects (audit gap 1)
+    core_new = (((None, None), "cdata_arr"),)
+    narrow_new = (((None, None), "mview"), ((3, -1), "arrayH"), ((None, None), "noncontig"), ((3, -1), "cdata_ptr"),
+                  ((-1, n + 1), "list"), ((3, -1), "str"))
+    for (i, j) in pairs:
+        for src in SS_NEW_EXACT + SS_TOLERANT + SS_REFUSE:
+            out.append((lv(((i, j), src) in core_new, ((i, j), src) in narrow_new), ("ss", i, j, src)))
     # from_buffer
     for fk in ("inline", "ool"):
-        for T in FB_TYPES:
+        for T in FB_OLD_TYPES:
             for w in FB_WINS:
                 for wk in ("none", "last", "first"):
                     core = (fk, T, w, wk) in (("inline", "int[]", (0, 12), "last"), ("ool", "short[]", (0, 5), "last"),
@@ -164,7 +204,9 @@ def _gen_ops(bufwin):
     core_mm = [("c", 1, "c", 0, 11), ("c", 0, "c", 1, 11), ("y", 2, "b", 0, 10), ("b", 0, "y", 3, 9),
                ("c", 7, "y", 2, 5), ("b", 3, "b", 3, 0), ("y", 0, "x", 4, 8), ("c", 4, "b", 2, 5)]
     narrow_mm = [("b", 1, "c", 0, 11), ("y", 0, "y", 1, 11), ("c", 0, "c", 0, 12), ("b", 5, "x", 0, 7),
-                 ("y", 6, "c", 0, 6), ("c", 0, "b", 6, 6)]
+                 ("y", 6, "c", 0, 6), ("c", 0, "b", 6, 6),
+                 # cdata operands that are not char pointers: n stays a number of BYTES (audit gap 6)
+                 ("i", 1, "c", 0, 11), ("c", 0, "v", 1, 11), ("v", 4, "i", 2, 5)]
     seen = set()
     for m in core_mm:
         out.append((0, ("mm",) + m))
@@ -172,8 +214,8 @@ def _gen_ops(bufwin):
     for m in narrow_mm:
         out.append((1, ("mm",) + m))
         seen.add(m)
-    for dk in ("c", "y", "b"):
-        for sk in ("c", "y", "b", "x"):
+    for dk, sk in [(d, s_) for d in ("c", "y", "b") for s_ in ("c", "y", "b", "x")] + [("i", "v"), ("v", "i")]:
+        if True:
             for n_ in range(N + 1):
                 for doff in range(N - n_ + 1):
                     for soff in range(N - n_ + 1):
@@ -186,6 +228,9 @@ def _gen_ops(bufwin):
                         out.append((2 if wide else 3, ("mm",) + m))
     for k, v in ((4, 0x99), (0, 0x77), (11, 0x55)):
         out.append((lv(k == 4), ("poke", k, v)))
+    # deletion, three-part slices, value / index object kinds, other slots of the buffer type, more from_buffer
+    # types / windows / call forms / objects, memmove refusals and keywords, ffi.buffer over other pointer types
+    out.extend(_c19x.gen_ext_ops(bufwin))
     return out
 
 
@@ -458,13 +503,53 @@ class Sys(object):
             elif src == "self":
                 data = bytes(V)
                 srcobj = b
+            elif src == "mview":
+                data = bytes(0xD0 + k for k in range(L))
+                srcobj = memoryview(data)
+            elif src == "arrayH":
+                # the length of a source counts in BYTES: an odd L gets L + 1 bytes, which must be refused
+                data = bytes(0xA0 + k for k in range(L + (L & 1)))
+                srcobj = array.array("H")
+                srcobj.frombytes(data)
+            elif src == "noncontig":
+                data = bytes(0x90 + k for k in range(L))
+                raw = bytearray(2 * L)
+                raw[::2] = data
+                srcobj = memoryview(raw)[::2]
+            elif src == "list":
+                data = bytes(0x80 + k for k in range(L))
+                srcobj = list(data)
+            elif src in ("cdata_arr", "cdata_ptr"):
+                data = bytes(0x70 + k for k in range(L))
+                arr = ffi.new("char[]", L)
+                ctypes.memmove(int(ffi.cast("uintptr_t", arr)), data, L)
+                srcobj = arr if src == "cdata_arr" else ffi.cast("char *", arr)
+            elif src == "str":
+                data = b""
+                srcobj = "x" * L
+            elif src == "cdata_prim":
+                data = b""
+                srcobj = ffi.cast("int", L)
+            else:
+                raise InfraError("ss source %r" % (src,))
             fits = len(data) == L
-            self.last_class = "ss/%s/%s/%s" % (_slice_class(i, j, n), src, "fits" if fits else "wrong-length")
             try:
                 b[i:j] = srcobj
                 exc = None
             except Exception as e:
                 exc = e.with_traceback(None)
+            if src in SS_REFUSE or src in SS_TOLERANT:
+                self.last_class = "ss/%s/%s/%s" % (_slice_class(i, j, n), src, "refused" if exc is not None else "accepted")
+                if exc is not None:
+                    return None               # refused: the memory check below requires that nothing changed
+                if src in SS_REFUSE:
+                    return self._bad("slice-assign-accepted-non-buffer", slice=[i, j], src=src)
+                V[i:j] = data                 # accepted: then it must be what a bytearray does with these bytes
+                if len(V) != n:
+                    raise InfraError("model length changed")
+                self.M[a:a + n] = V
+                return None
+            self.last_class = "ss/%s/%s/%s" % (_slice_class(i, j, n), src, "fits" if fits else "wrong-length")
             if fits:
                 if exc is not None:
                     return self._bad("slice-assign-rejected", slice=[i, j], src=src, error=repr(exc))
@@ -478,50 +563,7 @@ class Sys(object):
             return None                   # refused: the memory check below requires that nothing changed
 
         if name == "fb":
-            fk, T, woff, wlen, wk = op[1], op[2], op[3], op[4], op[5]
-            F = get_ffi(fk)
-            code, size, fixed = FB_TYPES[T]
-            want_len = wlen // size if fixed is None else fixed
-            ok = fixed is None or wlen >= fixed * size
-            self.last_class = "fb/%s/%s/%s" % (
-                T, "ok" if ok else "too-small",
-                "exact" if wlen % size == 0 else "remainder") + ("/empty" if ok and want_len == 0 else "")
-            obj = self._window_obj(woff, wlen)
-            try:
-                c = F.from_buffer(T, obj)
-                exc = None
-            except Exception as e:
-                exc = e.with_traceback(None)
-            if not ok:
-                if exc is None:
-                    return self._bad("from_buffer-too-small-accepted", T=T, nbytes=wlen)
-                if not isinstance(exc, ValueError):
-                    return self._bad("from_buffer-wrong-exception", T=T, nbytes=wlen, error=repr(exc))
-                return None
-            if exc is not None:
-                return self._bad("from_buffer-rejected", T=T, nbytes=wlen, error=repr(exc))
-            self.keep.append(c)
-            if len(c) != want_len:
-                return self._bad("from_buffer-length", T=T, nbytes=wlen, got=len(c), want=want_len)
-            if F.typeof(c) is not F.typeof(T) or int(F.cast("uintptr_t", c)) != self.base_addr + woff:
-                return self._bad("from_buffer-alias", T=T, type=F.typeof(c).cname,
-                                 delta=int(F.cast("uintptr_t", c)) - self.base_addr, want_delta=woff)
-            import struct
-            for k in range(want_len):
-                o = self.lo + woff + k * size
-                want = struct.unpack_from("<" + code, self.M, o)[0]
-                if c[k] != want:
-                    return self._bad("from_buffer-item", T=T, k=k, got=repr(c[k]), want=repr(want))
-            if wk != "none" and want_len > 0:
-                k = want_len - 1 if wk == "last" else 0
-                v = _FBV[code][0 if wk == "last" else 1]
-                try:
-                    c[k] = v
-                except Exception as e:
-                    return self._bad("from_buffer-write", T=T, k=k, error=repr(e))
-                o = self.lo + woff + k * size
-                self.M[o:o + size] = v if code == "c" else struct.pack("<" + code, v)
-            return None
+            return _c19x._fb(self, op)
 
         if name == "mm":
             dk, doff, sk, soff, cnt = op[1:]
@@ -536,6 +578,10 @@ class Sys(object):
                     return self._pybuf(o)
                 if kind == "b":
                     return ffi.buffer(self._ptr(o), N - o)
+                if kind == "i":
+                    return ffi.cast("int *", self._ptr(o))
+                if kind == "v":
+                    return ffi.cast("void *", self._ptr(o))
                 return EXT[o:]
             data = EXT[soff:soff + cnt] if sk == "x" else bytes(self.M[self.lo + soff:self.lo + soff + cnt])
             try:
@@ -557,6 +603,9 @@ class Sys(object):
                 return self._bad("buffer-not-live", got=bytes(b).hex(), want=want.hex())
             return None
 
+        handled, info = _c19x.apply_ext(self, op)
+        if handled:
+            return info
         raise InfraError("unknown op %r" % (op,))
 
     def close(self):
@@ -730,10 +779,75 @@ def large_memmove(ctx):
     return n_cases
 
 
+def _large_slice_cases(quick):
+    """(S, kind, x, y): kind 'assign-buffer' / 'assign-mview': b[x:x+S] = <view of bytes [y, y+S) of the same
+    memory>; kind 'read': b[x:y]."""
+    out = []
+    for S in ([4096, 65537, 1 << 20] if quick else [4096, 65536, 65537, 1 << 20, (1 << 20) + 3]):
+        for shift in sorted({1, 7, 64, S // 2}):
+            for kind in ("assign-buffer", "assign-mview"):
+                out.append((S, kind, 5, 5 + shift))         # destination below the source
+                out.append((S, kind, 5 + shift, 5))         # destination above the source
+        for (i, j) in ((0, S), (1, S + 1), (-S - 1, None), (None, None), (S, 3 * S), (-1, None), (S // 2, -S // 2)):
+            out.append((S, "read", i, j))
+    return out
+
+
+def _large_slice_case(ffi, case):
+    """None, or (sig, extra detail)."""
+    S, kind, x, y = case
+    total = 2 * S + 64
+    ba = bytearray((bytes(range(251)) * (total // 251 + 1))[:total])    # period 251: no two windows look alike
+    model = bytearray(ba)
+    whole = ffi.from_buffer(ba)
+    b = ffi.buffer(whole, total)
+    if len(b) != total:
+        return {"kind": "large-buffer-length"}, {"got": len(b)}
+    if kind == "read":
+        want = bytes(model[x:y])
+        try:
+            got = b[x:y]
+        except Exception as e:
+            return {"kind": "slice-read-large-raises"}, {"error": repr(e)}
+        if got != want:
+            return {"kind": "slice-read-large-value"}, {"got_len": len(got), "want_len": len(want)}
+        return None
+    src = ffi.buffer(whole + y, S) if kind == "assign-buffer" else memoryview(ba)[y:y + S]
+    model[x:x + S] = bytes(model[y:y + S])          # what a bytearray does: a copy through an intermediate buffer
+    try:
+        b[x:x + S] = src
+    except Exception as e:
+        return {"kind": "slice-assign-large-raises", "src": kind}, {"error": repr(e)}
+    finally:
+        del src
+    if ba != model:
+        k = next(q for q in range(total) if ba[q] != model[q])
+        return ({"kind": "slice-assign-large-overlap-differs-from-bytearray", "src": kind,
+                 "direction": "dst>src" if x > y else "dst<src"}, {"first_mismatch": k})
+    return None
+
+
+def large_slices(ctx):
+    """Slice reads and overlapping slice assignments on LARGE buffers (4 KiB / 64 KiB / 1 MiB: the sizes where
+    copy strategies change); the 12-byte machine cannot show them.  Exhaustive over _large_slice_cases."""
+    import cffi
+    ffi = cffi.FFI()
+    cases = _large_slice_cases(ctx.quick)
+    for case in cases:
+        r = _large_slice_case(ffi, case)
+        ctx.count("large_slice/" + case[1])
+        if r is not None:
+            d = {"large": "slice", "case": list(case)}
+            d.update(r[1])
+            ctx.violation(r[0], d)
+    return len(cases)
+
+
 def run(ctx):
     get_ffi("inline")
     get_ffi("ool")
     n_large = large_memmove(ctx)
+    n_large_slices = large_slices(ctx)
     cov_pass = {}
     tot_states = tot_trans = 0
     maxd = 0
@@ -775,10 +889,16 @@ def run(ctx):
         "passes": cov_pass,
         "alphabet_sizes_on_buffer_0_12": asz,
         "large_overlapping_memmove_cases": n_large,
+        "large_slice_cases": n_large_slices,
+        "op_families": {k: sum(1 for o in ops_for((0, N), 3) if o[0] == k)
+                        for k in sorted({o[0] for o in ops_for((0, N), 3)})},
         "memory_kinds": list(MEMS),
         "rule": "every history of length <= depth over the enabled-op alphabet of each pass (with the stated bound on "
                 "operations outside the core alphabet), for every memory kind; every transition executes the real "
-                "operation and compares its result and the whole memory with the bytearray model",
+                "operation and compares its result and the whole memory with the bytearray model; the alphabet "
+                "includes the audit families (op_families: ss sources, del/dels/gs3/ss3, setv/geti/seti/gsi/ssi, "
+                "rd/cmp/mvset/mvset1/pack/unpack/readinto, fb/fbf/fbx, mmx and the int*/void* memmove kinds, bufp); "
+                "plus every listed large overlapping memmove and large slice read / overlapping slice assignment",
     }
     return ctx.finish(cov, [
         "a Python bytearray evaluated with the same index/slice expression is the reference; memory is observed "
@@ -803,10 +923,21 @@ def _sig(info):
             s["pair"] = "%s<-%s" % (info["op"][1], info["op"][3])
         if info["op"][0] == "ss":
             s["src"] = info["op"][3]
+        # the families of _c19x: the classifying (never the numeric) components of the op
+        for k in ("T", "form", "objkind", "variant", "ptype", "ikind", "value", "src", "opname", "other"):
+            if k in info and k not in s:
+                s[k] = info[k]
+        if info["op"][0] in ("gs3", "ss3"):
+            s["step"] = info["op"][3]
     return s
 
 
 def replay(detail):
+    if detail.get("large") == "slice":
+        import cffi
+        r = _large_slice_case(cffi.FFI(), tuple(detail["case"]))
+        print("case", detail["case"], "->", "ok" if r is None else r)
+        return 1 if r is not None else 0
     if detail.get("large"):
         class _C(object):
             quick = False
